@@ -51,7 +51,7 @@ func (g *gen) spellings(vals []string, modern float64) []int {
 				feat = append(feat, k+1)
 			}
 		}
-		if len(feat) > 0 && g.chance(modern) {
+		if len(feat) > 0 && (len(plain) == 0 || g.chance(modern)) {
 			sp[i] = feat[g.rng.Intn(len(feat))]
 		} else {
 			sp[i] = plain[g.rng.Intn(len(plain))]
@@ -94,6 +94,9 @@ func (g *gen) themedDecl(theme string, pl *pools, modern float64) Decl {
 			vals := make([]string, n)
 			for i := range vals {
 				vals[i] = g.pick(pl.lens)
+				if g.chance(0.06) {
+					vals[i] = g.pick(v.valsByKind["lenfn"])
+				}
 			}
 			return g.decl(fam, vals, modern, imp)
 		}
@@ -103,6 +106,9 @@ func (g *gen) themedDecl(theme string, pl *pools, modern float64) Decl {
 		}
 		if g.chance(0.05) {
 			return g.decl(p, []string{"varx"}, 0, imp)
+		}
+		if g.chance(0.08) { // env(), min(), max(): opaque functions, min()/max() only where the browser knows them
+			return g.decl(p, []string{g.pick(v.valsByKind["lenfn"])}, 1, imp)
 		}
 		return g.decl(p, []string{g.pick(pl.lens)}, modern, imp)
 	case "radius":
